@@ -87,6 +87,11 @@ def answer_sources(p, f, allowed):
 
 
 def run(ck, tier):
+    _run(ck, tier)
+    add_always(ck, facts.load(), "R-C15-merged")
+
+
+def _run(ck, tier):
     ck.rule("R-C15-str", "siblings-agree: in every impl of Dictionary, m_str calls exactly the queries {m, m_str} (on self or its delegate) and no other query method")
     ck.rule("R-C15-fst", "delegation: every exact query of FstDictionary calls the same-named query on self.full_dict and nothing else of the query set; FstDictionary::new builds full_dict and the FST from the same vector")
     ck.rule("R-C15-merged", "union fold: every MergedDictionary query calls the same-named query on elements of self.children")
@@ -323,3 +328,46 @@ def _distance(ck, p):
     else:
         ck.proved(rule, "edit_distance_min_alloc:returns", f.span, "%d return value definitions: the saturation constant or a cell of the table" % n_ret)
     ck.decide(rule, "edit_distance_min_alloc:recurrence-shape", shape, f.span, "cell update uses %d min() and %d character comparison(s) (expected 2 and >= 1)" % (len(mins), len(eqs)))
+
+
+def add_always(ck, p, rule):
+    """MergedDictionary::add_dictionary keeps every child it is given: children.push(d) on every path.  A skip decided by
+    comparing hashes is refuted (a 64-bit hash of the words is not the word list); any other condition is undecided."""
+    from ..cfg import Cfg
+    from ..common import arg_fields, method, arg_roots
+    from ..util import fns_by_key
+    fs = fns_by_key(p).get("MergedDictionary::add_dictionary")
+    if not ck.anchor(rule, "MergedDictionary::add_dictionary", fs):
+        return
+    f = fs[0]
+    ck.saw(f)
+    cfg = Cfg(f)
+    pv = Prov(f)
+    key = "MergedDictionary::add_dictionary:always-adds"
+    cp = [bi for bi, t in f.calls() if method(t) == "push" and "children" in arg_fields(pv, t["args"][0])]
+    if not cp:
+        ck.refuted(rule, key, f.span, "no children.push(..) in add_dictionary")
+        return
+    rets = [bi for bi, b in enumerate(f.blocks) if b["t"]["k"] == "return" and not b["cleanup"]]
+    ok, wit = cfg.every_path_passes(0, cp, to=rets)
+    if ok:
+        ck.proved(rule, key, f.span, "every path through add_dictionary pushes the child")
+        return
+    # which test lets a path skip the push?
+    why = []
+    for bi, b in enumerate(f.blocks):
+        t = b["t"]
+        if t["k"] != "switch" or b["cleanup"]:
+            continue
+        succs = f.succs(bi)
+        skipping = [x for x in succs if not cfg.every_path_passes(x, cp, to=rets)[0]]
+        if skipping and len(skipping) < len(set(succs)) or (skipping and bi == 0):
+            for o in arg_roots(f, pv, t["discr"]):
+                if o[0] == "call":
+                    ct = f.blocks[o[1]]["t"]
+                    why.append((method(ct), sorted(arg_fields(pv, ct["args"][0])) if ct["args"] else [], ct["ln"]))
+    on_hash = [w for w in why if "child_hashes" in w[1] or w[0] == "hash_dictionary"]
+    if on_hash:
+        ck.refuted(rule, key, f.loc(on_hash[0][2]), "a child is skipped when its hash is already among child_hashes (%s, line %d): equal 64-bit hashes do not mean equal word lists (hash_dictionary feeds the characters of all words back to back), so a different dictionary can be dropped and its words vanish from every query of the merged dictionary" % (on_hash[0][0], on_hash[0][2]))
+    else:
+        ck.undecided(rule, key, f.span, "a path through add_dictionary does not push the child (tests: %s); whether the skipped child is really one already held is not decided" % (why[:3] or wit))
